@@ -319,6 +319,14 @@ def spec_api(I, name, args):
         a, idx, v = args
         it = idx.term if isinstance(idx, KeyVal) else (_keyterm(I, idx) if isinstance(idx, VTuple) else _int(idx))
         return VArr(z3.Store(a.t, it, _int(v)))
+    if name == 'key_part':
+        jj = args[1].concrete() if hasattr(args[1], 'concrete') else args[1]
+        if not isinstance(jj, int):
+            from .values import concrete_int
+            jj = concrete_int(args[1])
+        if jj is None:
+            raise Unsupported('key_part with a symbolic component index')
+        return key_component(args[0], jj, getattr(args[0], 'arity', None))
     if name == 'same':
         return VBool(to_pyval(args[0]) == to_pyval(args[1]))
     if name == 'at':
@@ -436,4 +444,4 @@ def choose_patterns(bound, body, max_alternatives=4):
     return alts or None
 
 
-SPEC_API = {'same', 'at', 'ghost_zero_int', 'ghost_zero_key', 'mk_key', 'blen', 'bat', 'dcount', 'dord', 'smem', 'llen', 'lat', 'sel', 'upd', 'forall'}
+SPEC_API = {'key_part', 'same', 'at', 'ghost_zero_int', 'ghost_zero_key', 'mk_key', 'blen', 'bat', 'dcount', 'dord', 'smem', 'llen', 'lat', 'sel', 'upd', 'forall'}
